@@ -1062,7 +1062,8 @@ class StrategyBase(Node):
 
         # go right to base alloc
         if self.fixed_income:
-            [c.transact(-c.position, update=False) for c in self._childrenv if c.position != 0]
+            # (sub-strategies hold no position of their own: their children were closed above)
+            [c.transact(-c.position, update=False) for c in self._childrenv if c._issec and c.position != 0]
         else:
             [c.allocate(-c.value, update=False) for c in self._childrenv if c.value != 0]
 
